@@ -1,6 +1,6 @@
 ---------------------------- MODULE GenValidation ----------------------------
 (* C10 documents: a valid base document and, per rule family, every combination of the family's field values (the other
-   families stay valid).  Each document is written with the model's Must / May code sets (JudgeValidation recomputes them). *)
+   families stay valid).  JudgeValidation evaluates the rules on every document. *)
 EXTENDS Validation, Json, IOUtils
 Thorough == IOEnv.TIER = "thorough"
 W(s, e) == [n |-> 2, s |-> s, e |-> e]
@@ -105,12 +105,9 @@ FamEmpty == { [Base EXCEPT !.jobs = <<>>], [Base EXCEPT !.vehicles = <<>>], [Bas
 Families == << <<"windows", FamWindows>>, <<"demand", FamDemand>>, <<"ids", FamIds>>, <<"duration", FamDuration>>, <<"vehicles", FamVehicles>>,
                <<"shifts", FamShifts>>, <<"breaks", FamBreaks>>, <<"reloads", FamReloads>>, <<"relations", FamRelations>>,
                <<"objectives", FamObjectives>>, <<"routing", FamRouting>>, <<"empty", FamEmpty>> >>
-Docs == V_Flat([f \in 1..Len(Families) |-> LET ds == SetToSeq(Families[f][2]) IN
-                 [i \in 1..Len(ds) |-> [fam |-> Families[f][1], doc |-> ds[i], must |-> SetToSeq(MustSet(ds[i])), may |-> SetToSeq(MaySet(ds[i]))]]])
-\* sanity of the rule predicates on the generated domain: the base is clean, Must implies May, every rule has a witness and a non-witness
+Docs == V_Flat([f \in 1..Len(Families) |-> LET ds == SetToSeq(Families[f][2]) IN [i \in 1..Len(ds) |-> [fam |-> Families[f][1], doc |-> ds[i]]]])
+\* the base document breaks no rule under any reading (the per-rule witness / non-witness guard is evaluated by the judge run)
 ASSUME MaySet(Base) = {}
-ASSUME \A i \in 1..Len(Docs) : V_Range(Docs[i].must) \subseteq V_Range(Docs[i].may)
-ASSUME \A c \in Codes : (\E i \in 1..Len(Docs) : c \in V_Range(Docs[i].must)) /\ (\E i \in 1..Len(Docs) : c \notin V_Range(Docs[i].may))
 ASSUME ndJsonSerialize(IOEnv.OUTFILE, Docs)
 ASSUME PrintT("GENERATED " \o ToString(Len(Docs)))
 VARIABLE x
